@@ -12,13 +12,15 @@ import trimesh
 from trimesh import creation, intersections
 
 from ..core import ASSUMPTIONS, REQUIRED_CLASSES, RULES, Violation, body, check, subcheck
+from ..gen import c11_cells as gcells
 from ..gen import matrices as gmat
 from ..gen import meshes as gmesh
 from ..oracle import c11_ref as ref
 
 RULES["C11"] = (
     "Meshes from the template pool (tetra, box, octa, icosphere, UV sphere = convex; star prisms, torus = non-convex / genus 1; "
-    "two disjoint bodies; open by face deletion), either with INTEGER coordinates (lattice 1..100, unrotated) or jittered / rotated / "
+    "two disjoint bodies; open by face deletion; extruded polyominoes (own grid construction: L / U / C / comb outlines, frames with "
+    "tongues = non-convex through-holes whose centroid lies in the material) for the capping sub-check cap_holes), either with INTEGER coordinates (lattice 1..100, unrotated) or jittered / rotated / "
     "translated / scaled (1e-2..1e2) floats. Planes: general position; through a mesh vertex; along a mesh edge; in a face; through "
     "three vertices; through 1-3 edge midpoints; lattice point with small integer normal; each of these optionally perturbed by "
     "1e-10..1e-7 (near class) — on lattice meshes the normal is an integer vector so every dot product is exact and all 10 sign "
@@ -39,10 +41,12 @@ ASSUMPTIONS["C11"] = [
     "Path3D.is_closed / path length are demanded only for distinct expected section points > 1e-4 apart (path merge tolerance 1e-5; for the processed Path2D of section_multiplane 1e-4 * path scale, as Path.merge_vertices works at tol_path.merge * scale); closedness also needs closed input and no vertex on the plane",
     "'general position' for closedness also requires every crossing point reproducible in float64 to 1e-6 (64 eps scale / sin(edge, plane)): the faces sharing a cut edge compute it independently; the same conditioning bounds the difference between a local_faces call and the full call",
     "capping works at the resolution tol.merge: exact volume / watertightness of capped halves is demanded only when distinct expected section points are > 1e-6 apart and every crossing point is reproducible to 1e-9 (8 eps scale / sin(edge, plane)); a vertex taken as on-plane within tolerance widens the area / volume tolerance by the band it may move (and points within tol.merge of the surface count as on it)",
+    "capped halves are checked exactly only if no expected crossing point has a coordinate within its float64 uncertainty of a rounding boundary of the 1e-8 grid of grouping.unique_rows (documented 'go either way'; hits a few % of cases at coordinates ~1e4, class cap:merge_grid_boundary_skipped)",
     "near-plane offsets avoid the half-grid value 5e-9 where the 1e-8 rounding grid of grouping.unique_rows may 'go either way' (documented there)",
     "transform_points' documented identity shortcut (|M - I| < 1e-8) is allowed for in the 2D round trip of section_multiplane",
     "template solids under jitter <= 0.05 / lattice >= 100 rounding are embedded (not self-intersecting); lattice 10 solids are used for capping only when convex by an exact test",
     "slice_plane(face_index=...) is read as 'the positive part of the selected faces', like local_faces of mesh_plane",
+    "per capped half (single plane): zero total vector area, area = clipped surface + exact section area (flux of the clipped surface through the plane), every cap triangle's centroid has winding number 1 w.r.t. the source solid; for the constructed polyomino solids and engines triangle / manifold every edge must be used equally often in both directions (allows two parts of a half touching along an edge); earcut is exempt from that clause because it merges collinear boundary points (T-junctions, zero geometric gap)",
     "winding consistency (is_volume) of a capped convex half is demanded only if the half has no zero-area face (a cap over collinear points)",
 ]
 
@@ -56,8 +60,15 @@ ENGINES = [name for name, ok in creation._engines if ok]
 
 def build_mesh(ms):
     """-> dict(V, F, E, lattice(bool), closed(bool), solid(bool), convex(bool), label)"""
-    V, F = gmesh.build(ms["spec"])
-    full_F = F
+    cells_info = None
+    if ms.get("cells") is not None:
+        # extruded polyomino (own construction): non-convex outline, non-convex through-holes; optional placement
+        V, F, cells_info = gcells.build(ms["cells"])
+        if ms.get("place") is not None:
+            Mx = np.asarray(ms["place"], dtype=np.float64)
+            V = V @ Mx[:3, :3].T + Mx[:3, 3]
+    else:
+        V, F = gmesh.build(ms["spec"])
     if ms.get("drop"):
         keep = np.ones(len(F), dtype=bool)
         keep[[i % len(F) for i in ms["drop"]]] = False
@@ -77,11 +88,14 @@ def build_mesh(ms):
     nondeg = bool((np.linalg.norm(cr, axis=1) > 1e-9 * sc * sc).all()) and len(np.unique(V[np.unique(F)], axis=0)) == len(np.unique(F))
     ncomp = ref.n_components(F, len(V))
     convex = bool(closed and nondeg and ncomp == 1 and ref.weakly_convex(V, F, integer=lattice))
-    trusted = (ms["spec"].get("lattice") or 100) >= 100  # displacement <= 0.005 keeps templates embedded
+    if cells_info is not None:
+        trusted, kinds = True, "cells"  # embedded by construction
+    else:
+        trusted = (ms["spec"].get("lattice") or 100) >= 100  # displacement <= 0.005 keeps templates embedded
+        kinds = ms["spec"]["parts"][0]["kind"] if len(ms["spec"]["parts"]) == 1 else "multibody"
     solid = bool(closed and nondeg and ref.volume_of(V, F) > 0 and (convex or trusted))
-    kinds = ms["spec"]["parts"][0]["kind"] if len(ms["spec"]["parts"]) == 1 else "multibody"
     return {"V": V, "F": F, "E": E, "lattice": lattice, "closed": closed, "solid": solid, "convex": convex, "ncomp": ncomp,
-            "label": ("lat:" if lattice else "flt:") + kinds + ("" if closed else ":open")}
+            "cells": cells_info, "label": ("lat:" if lattice else "flt:") + kinds + ("" if closed else ":open")}
 
 
 def _igcd(v):
@@ -312,6 +326,26 @@ def endpoints_resolved(M, dots, signs, nlen=1.0):
             return False
     sep = endpoints_separated({"V": V, "E": E, "F": F}, dots, signs, min_dist=100 * THR)
     return sep or not ((signs[F].min(axis=1) < 0) & (signs[F].max(axis=1) > 0)).any() and not (signs == 0).any()
+
+
+def merge_grid_safe(M, dots, signs, nlen=1.0):
+    """capping fuses the copies of a crossing point (one per adjacent face) with grouping.unique_rows, which rounds
+    x * 1e8 - 1e-6 to integers: copies that differ by float noise are NOT fused when a coordinate sits on a rounding
+    boundary (documented there as 'go either way'; noise / cell ~ 1e-4 at coordinates ~1e4). A case is outside that
+    documented behaviour only if no expected crossing point has a coordinate within its float64 uncertainty
+    (64 eps scale / sin(edge, plane)) of such a boundary."""
+    V, F = M["V"], M["F"]
+    E = M["E"] if "E" in M else edges_of(F)
+    cut = E[signs[E[:, 0]] * signs[E[:, 1]] < 0]
+    if len(cut) == 0:
+        return True
+    da, db = dots[cut[:, 0]], dots[cut[:, 1]]
+    P = V[cut[:, 0]] + (da / (da - db))[:, None] * (V[cut[:, 1]] - V[cut[:, 0]])
+    L = np.linalg.norm(V[cut[:, 1]] - V[cut[:, 0]], axis=1)
+    unc = 64 * EPS * max(float(np.abs(V).max()), 1e-300) * L * nlen / np.abs(da - db) + 16 * EPS * np.abs(P).max(axis=1)
+    cell = P * 1e8 - 1e-6
+    frac = cell - np.floor(cell)
+    return bool((np.abs(frac - 0.5) > (unc * 1e8 + 1e-6)[:, None]).all())
 
 
 def edges_of(F):
@@ -641,6 +675,9 @@ def b_cap(case, ctx):
         mesh = trimesh.Trimesh(V.copy(), F.copy(), process=False)
         shape = "convex" if M["convex"] else ("multibody" if M["ncomp"] > 1 else "nonconvex")
         base = f"C11.cap|{engine}|{shape}|{pk}"
+        if M["cells"] is not None:
+            ci = M["cells"]
+            ctx.note(cls=["cells:holes" if ci["holes"] else "cells:no_hole"] + [f"cells:{k}:{engine}" for k in ("hole_nonconvex", "hole_centroid_in_material", "outline_nonconvex") if ci[k]])
         ctx.note(nontrivial=bool((signs > 0).any() and (signs < 0).any()),
                  cls=[M["label"], "cap:" + engine, "cap:" + shape, "capplane:" + pk, "nplanes:%d" % len(planes)] + code_classes(sf))
         cl = []
@@ -680,6 +717,12 @@ def b_cap(case, ctx):
             if len(pl) > 1 and Mhead is not None:
                 res = res and endpoints_resolved(Mhead, *oracle_signs(Mhead, *pl[-1])[:2], nlen=float(np.linalg.norm(pl[-1][1])))
             res = res and not c.gray and not (cH is not None and cH.gray)
+            safe = merge_grid_safe(M, *oracle_signs(M, *pl[0])[:2], nlen=float(np.linalg.norm(pl[0][1])))
+            if len(pl) > 1 and Mhead is not None:
+                safe = safe and merge_grid_safe(Mhead, *oracle_signs(Mhead, *pl[-1])[:2], nlen=float(np.linalg.norm(pl[-1][1])))
+            if res and not safe:
+                cl.append("cap:merge_grid_boundary_skipped")
+            res = res and safe
             if not res:
                 cl.append("cap:unresolved_skipped")
             try:
@@ -716,6 +759,37 @@ def b_cap(case, ctx):
                 check(abs(vol - ve) <= atol, sig + "|volume", lambda: f"capped volume {vol!r} vs exact volume of solid ∩ half space {ve!r} (solid {v0!r}, tol {atol:.3g}); {len(OF)} faces")
                 cut = ve > 1e-6 * v0 and ve < (1 - 1e-6) * v0
                 any_cut = any_cut or cut
+                if len(pl) == 1 and len(OF):
+                    # the cap is exactly the section region: by the divergence theorem the closed half has zero total
+                    # vector area, so the cap (planar, facing -n) has area A = n . (vector area of the clipped surface);
+                    # vol(+) + vol(-) cannot see a cap that is missing on both halves, these clauses can
+                    nh = ref.unit(pl[0][1])
+                    a_cap = max(float(c.vector_area() @ nh), 0.0)
+                    tol_a = 1e-8 * A0 + c.snap_area + (THR + c.snap_dist) * math.sqrt(A0) * 8
+                    flux = ref.vector_area_of(OV, OF)
+                    check(np.abs(flux).max() <= tol_a, sig + "|half_not_closed", lambda: f"total vector area of the capped half is {flux.tolist()} (a closed consistently wound surface has 0): cap missing, surplus or wound the wrong way; exact section area {a_cap:.9g}")
+                    a_out = ref.area_of(OV, OF)
+                    check(abs(a_out - (c.area() + a_cap)) <= tol_a, sig + "|cap_area", lambda: f"area of the capped half {a_out!r} vs clipped surface {c.area()!r} + exact section area {a_cap!r}")
+                    d_on = np.abs((OV - pl[0][0]) @ nh)
+                    capf = np.nonzero((d_on[OF] <= THR / float(np.linalg.norm(pl[0][1])) + 2e-8 + 1e-12 * scale).all(axis=1) & (fa > 1e-9 * scale * scale))[0]
+                    if len(capf):
+                        cen = OV[OF[capf]].mean(axis=1)
+                        interior = ref.dist_to_mesh(cen, V, F) > 1e-7 * scale  # not a kept coplanar face of the source
+                        if interior.any():
+                            cl.append("cap:location_checked")
+                            wn = ref.winding_number(cen[interior], V, F)
+                            k = int(np.argmax(np.abs(wn - 1.0)))
+                            check(abs(wn[k] - 1.0) <= 1e-3, sig + "|cap_outside_solid", lambda: f"cap triangle {OV[OF[capf[np.nonzero(interior)[0][k]]]].tolist()} has its centroid where the winding number of the solid is {wn[k]:.4f} (1 = inside the material)")
+                if M["cells"] is not None and ve > 1e-6 * v0 and engine != "earcut":
+                    # constructed solids without T-junctions: triangle / manifold keep every boundary vertex, so each
+                    # half must be watertight and consistently wound (earcut may merge collinear boundary points)
+                    cl.append("cap:cells_half_checked")
+                    if fa.min() > 1e-9 * scale * scale:
+                        be = ref.edge_imbalance(OF)
+                        check(not be, sig + "|not_closed_oriented", lambda: f"half of an extruded polyomino: {len(be)} edges are not used equally often in both directions (open edge, T-junction or flipped face), e.g. {list(be.items())[:4]}")
+                    else:
+                        be = {e: k for e, k in ref.boundary_edges(OF).items() if k % 2}
+                        check(not be, sig + "|not_watertight", lambda: f"half of an extruded polyomino has {len(be)} edges used an odd number of times, e.g. {list(be.items())[:4]}")
                 if M["convex"] and ve > 1e-6 * v0:
                     cl.append("cap:convex_half_checked")
                     be = ref.boundary_edges(OF)
@@ -841,6 +915,24 @@ def cap_case(draw):
     return {"mesh": draw(mesh_case(solid_only=True)), "planes": [draw(plane_spec()) for _ in range(k)], "engine": draw(st.sampled_from(ENGINES or ["earcut"]))}
 
 
+@st.composite
+def cells_cap_case(draw):
+    ms = {"cells": draw(gcells.cells_spec())}
+    if draw(st.integers(0, 2)) == 0:
+        ms["place"] = draw(gmat.matrix(classes=["rotation", "rigid"], tscale=draw(st.sampled_from([0.0, 10.0]))))["M"]
+        if draw(st.booleans()):
+            ms["scale"] = draw(st.sampled_from([0.01, 0.1, 10.0]))
+    # mostly planes that cut through the holes: horizontal between bottom and top, oblique general ones, some exact ones
+    p = draw(plane_spec(near_ok=False, kinds=["axis", "axis", "axis", "general", "general", "mid", "vertex", "edge", "three"]))
+    if p["kind"] == "axis" and draw(st.integers(0, 3)) != 0:
+        p["w"] = [0, 0, draw(st.sampled_from([1, -1]))]
+        p["u"][2] = draw(st.sampled_from([0.25, 0.5, 0.5, 0.75]))
+    planes = [p]
+    if draw(st.integers(0, 7)) == 0:
+        planes.append(draw(plane_spec(near_ok=False, kinds=["general", "axis", "mid"])))
+    return {"mesh": ms, "planes": planes, "engine": draw(st.sampled_from(ENGINES or ["earcut"]))}
+
+
 # --------------------------------------------------------------------------------------------- sub-checks
 
 
@@ -859,7 +951,13 @@ def s_cap(ctx):
     ctx.given("C11.cap", cap_case(), n={"quick": 1500, "thorough": 30000})
 
 
+@subcheck("C11", "cap_holes", shards={"quick": 4, "thorough": 12})
+def s_cap_holes(ctx):
+    ctx.given("C11.cap", cells_cap_case(), n={"quick": 1000, "thorough": 20000})
+
+
 REQUIRED_CLASSES["C11"] = [f"code:{c}" for c in (0, 2, 4, 6, 8, 12, 14, 16, 20, 28)] + [
     "slice:inside", "slice:outside", "slice:quad", "slice:tri", "slice:tri_vertex_on_plane", "slice:coplanar_kept", "slice:coplanar_dropped",
     "signs:exact", "signs:tol", "closed_demanded", "cap:convex_half_checked", "subset:some", "multiplane:vertex", "nplanes:2",
-] + ["sp:" + a + b + c for a in "-0+" for b in "-0+" for c in "-0+"] + ["cap:" + e for e in ENGINES]
+] + ["sp:" + a + b + c for a in "-0+" for b in "-0+" for c in "-0+"] + ["cap:" + e for e in ENGINES] + [
+    "cap:cells_half_checked", "cap:location_checked", "cells:holes"] + [f"cells:{k}:{e}" for k in ("hole_nonconvex", "hole_centroid_in_material", "outline_nonconvex") for e in ENGINES]
